@@ -276,6 +276,38 @@ class SpanClient(F.Client):
         for n in A.body_nodes(f.node):
             if isinstance(n, ast.Assign) and len(n.targets) == 1 and isinstance(n.targets[0], ast.Name) and ".join(lines)" in A.text(n.value):
                 self.track.add(n.targets[0].id)
+        # the locals that hold the first / last line number and the list of text pieces, whatever they are called: taken from the
+        # item constructions (`self.line_item(text, <first>, <last>, ...)`) and the join that builds the text
+        from collections import Counter
+        starts, ends = Counter(), Counter()
+        for c in A.calls(f.node):
+            if A.text(c.func) in ("self.line_item", "self.multiline_item") and len(c.args) >= 3:
+                for cnt, a in ((starts, c.args[1]), (ends, c.args[2])):
+                    if isinstance(a, ast.Name):
+                        cnt[a.id] += 1
+        self.start_var = starts.most_common(1)[0][0] if starts else "startlineno"
+        self.end_var = ends.most_common(1)[0][0] if ends else "endlineno"
+        self.list_vars = set()
+        for n in A.body_nodes(f.node):
+            if isinstance(n, ast.Call) and isinstance(n.func, ast.Attribute) and n.func.attr == "join" and len(n.args) == 1 \
+                    and isinstance(n.args[0], ast.Name):
+                self.list_vars.add(n.args[0].id)
+        self.list_vars = self.list_vars or {"lines"}
+        self.track = self.track | self.list_vars
+        for n in A.body_nodes(f.node):
+            if isinstance(n, ast.Assign) and len(n.targets) == 1 and isinstance(n.targets[0], ast.Name) \
+                    and any(".join(%s)" % v in A.text(n.value) for v in self.list_vars):
+                self.track.add(n.targets[0].id)
+        # the local that receives the physical lines read (tested against None by the loops)
+        for n in A.body_nodes(f.node):
+            if isinstance(n, ast.Assign) and len(n.targets) == 1 and isinstance(n.targets[0], ast.Name) and isinstance(n.value, ast.Call) \
+                    and A.text(n.value.func) in self.read_aliases:
+                self.track.add(n.targets[0].id)
+        self.append_aliases |= {v + ".append" for v in self.list_vars}
+        for n in A.body_nodes(f.node):
+            if isinstance(n, ast.Assign) and len(n.targets) == 1 and isinstance(n.targets[0], ast.Name) \
+                    and A.text(n.value) in {v + ".append" for v in self.list_vars}:
+                self.append_aliases.add(n.targets[0].id)
         self.items = []   # (state, call node, which)
 
     def call_effect(self, call, st):
@@ -291,23 +323,26 @@ class SpanClient(F.Client):
 
     def ev_append(self, st):
         rel = "eq" if st.get("$ecur") == F.TRUE else "lt"
-        return st.set("$lacur", F.TRUE).set("$rel", F.const(rel)).set("lines", F.TRUTHY)
+        st = st.set("$lacur", F.TRUE).set("$rel", F.const(rel))
+        for v in self.list_vars:
+            st = st.set(v, F.TRUTHY)
+        return st
 
     def stmt_effect(self, s, st):
         if isinstance(s, ast.Assign) and len(s.targets) == 1 and isinstance(s.targets[0], ast.Name):
             name = s.targets[0].id
             v = A.text(s.value)
-            if name == "endlineno":
+            if name == self.end_var:
                 if v == "self.linecount":
                     rel = st.get("$rel")
                     new = "eq" if st.get("$lacur") == F.TRUE else ("none" if rel == F.const("none") else "gt")
                     return st.set("$ecur", F.TRUE).set("$rel", F.const(new))
                 return st.set("$ecur", F.FALSE).set("$rel", F.const("gt"))
-            if name == "startlineno":
+            if name == self.start_var:
                 n = next(iter(st.get("$n")))[1]
                 ok = v == "self.linecount" and n == 1
                 return st.set("$start", F.const("first" if ok else "bad"))
-            if name == "lines" and isinstance(s.value, ast.List) and s.value.elts:
+            if name in self.list_vars and isinstance(s.value, ast.List) and s.value.elts:
                 return self.ev_append(st)
         return st
 
@@ -330,16 +365,16 @@ def rule_span(m, rid):
         sites.setdefault(key, 0)
         sites[key] += 1
         a_start, a_end = A.text(call.args[1]), A.text(call.args[2])
-        if a_start != "startlineno" or st.get("$start") != F.const("first"):
+        if a_start != cl.start_var or st.get("$start") != F.const("first"):
             probs.setdefault("start|" + key, ("the item's first line (`%s`) is not the line counter taken right after the first physical "
                                               "read of the statement" % a_start, call))
         text_arg = A.text(call.args[0])
         is_error_item = len(call.args) >= 6 or any(k.arg == "errmessage" for k in call.keywords)
         if is_error_item:
             continue
-        if a_end == "endlineno":
+        if a_end == cl.end_var:
             if st.get("$rel") != F.const("eq"):
-                probs.setdefault("end|" + key, ("the item's last line `endlineno` is %s the line of the last text appended to the "
+                probs.setdefault("end|" + key, ("the item's last line `" + cl.end_var + "` is %s the line of the last text appended to the "
                                                 "statement (relation %s)" % ({"lt": "before", "gt": "after"}.get(next(iter(st.get("$rel")))[1], "not tied to"),
                                                                               F.fmt(st.get("$rel"))), call))
         elif a_end == "self.linecount":
@@ -347,7 +382,7 @@ def rule_span(m, rid):
                 probs.setdefault("end|" + key, ("the item's last line is the current line counter although a later physical line was read "
                                                 "after the last text was appended", call))
         else:
-            probs.setdefault("end|" + key, ("the item's last line is `%s`, neither endlineno nor the line counter" % a_end, call))
+            probs.setdefault("end|" + key, ("the item's last line is `%s`, neither %s nor the line counter" % (a_end, cl.end_var), call))
     r.instances += len(sites)
     for k in sites:
         bad = [p for p in probs if p.endswith(k)]
@@ -501,11 +536,17 @@ def rule_semicolon(m, rid):
     if not splits:
         r.error("_next: no .split(';') found (anchor vanished)")
         return r
+    # the local that holds the item under inspection, whatever it is called: bound from the queue / from get_source_item
+    iv = "item"
+    for n in A.body_nodes(nx.node):
+        if isinstance(n, ast.Assign) and len(n.targets) == 1 and isinstance(n.targets[0], ast.Name) and isinstance(n.value, ast.Call) \
+                and A.text(n.value.func) in ("self.fifo_item.popleft", "self.get_source_item"):
+            iv = n.targets[0].id
     # a second accepted way to tokenise: `mapped, unmap = string_replace_map(item.line, ...)` (the map of the item's own text)
     tok_vars, unmap_vars = set(), set()
     for n in A.body_nodes(nx.node):
         if isinstance(n, ast.Assign) and isinstance(n.value, ast.Call) and A.text(n.value.func) == "string_replace_map" and n.value.args \
-                and A.text(n.value.args[0]) in ("item.line", "item.get_line()") and isinstance(n.targets[0], ast.Tuple) and len(n.targets[0].elts) == 2:
+                and A.text(n.value.args[0]) in (iv + ".line", iv + ".get_line()") and isinstance(n.targets[0], ast.Tuple) and len(n.targets[0].elts) == 2:
             tok_vars.add(A.text(n.targets[0].elts[0]))
             unmap_vars.add(A.text(n.targets[0].elts[1]))
 
@@ -557,7 +598,7 @@ def rule_semicolon(m, rid):
                 x = p_
             for t in tests:
                 for nm in ast.walk(t):
-                    if isinstance(nm, ast.Name) and nm.id not in ("item", "self", "isinstance", "type", "len") \
+                    if isinstance(nm, ast.Name) and nm.id not in (iv, "self", "isinstance", "type", "len") \
                             and not m.class_of_name(nx, nm.id) and nm.id not in ("Comment", "Line", "CppDirective", "MultiLine"):
                         foreign.append(nm.id)
     r.ob(not foreign, "_next: the decision to split at ';' reads only the item, its class and the reader's format")
@@ -580,7 +621,7 @@ def rule_semicolon(m, rid):
                         and A.dotted(c.operand.func) == "isinstance" and len(c.operand.args) == 2:
                     t = c.operand.args[1]
                     excluded |= {A.text(e) for e in (t.elts if isinstance(t, ast.Tuple) else [t])}
-                if A.text(c) in ("type(item) is Line", "type(item) == Line"):
+                if A.text(c) in ("type(%s) is Line" % iv, "type(%s) == Line" % iv):
                     exact = True
     missing = [k for k in special if k not in excluded] if not exact else []
     r.ob(not missing, "_next: the split guard excludes the non-statement Line classes %s" % special)
